@@ -3,6 +3,7 @@ package main
 import (
 	"fmt"
 	"go/types"
+	"strings"
 
 	"golang.org/x/tools/go/ssa"
 )
@@ -46,8 +47,48 @@ func (vc *VC) iterSums(fr *Frame, st *State, it *iterInfo) {
 func (vc *VC) mapSumTerm(st *State, mt *types.Map, m Term, fname string) Term {
 	ks, vs := vc.sortOf(mt.Key()), vc.sortOf(mt.Elem())
 	fn := "mapsum$" + fname
+	first := !vc.q.IsDeclared(fn)
 	vc.q.DeclareFun(fn, []Sort{ArraySort(ks, SBool), ArraySort(ks, vs)}, SInt)
+	if first {
+		vc.mapSumLemmas(st, mt, fn, fname, ks, vs)
+	}
 	return App(SInt, fn, vc.mapDom(st, mt, m), vc.mapVal(st, mt, m))
+}
+
+// mapSumLemmas asserts the two defining equations of a finite sum over a map that is built up by updates:
+// the sum over the empty map is 0, and m[k] = v replaces k's old contribution (if any) by f(v).
+// Only emitted when f's value depends on the element alone (no heap reads).
+func (vc *VC) mapSumLemmas(st *State, mt *types.Map, fn, fname string, ks, vs Sort) {
+	sf := vc.eng.ss.SpecFuncs[fname]
+	if sf == nil || sf.Ghost || sf.Body == nil || len(sf.Params) != 1 {
+		return
+	}
+	spkg := vc.eng.typesPkg(sf.Pkg)
+	pt := vc.eng.parseType(spkg, sf.Params[0].Type)
+	if pt == nil || !types.Identical(pt, mt.Elem()) {
+		return
+	}
+	bodyOf := func(elem Term) (t Term, ok bool) {
+		defer func() {
+			if r := recover(); r != nil {
+				ok = false
+			}
+		}()
+		env := &Env{vc: vc, st: st, old: st, names: map[string]Bound{}, nq: new(int), pkg: spkg}
+		env.names[sf.Params[0].Name] = Bound{elem, pt}
+		b, _ := vc.specExpr(env, sf.Body)
+		return b, true
+	}
+	bv, ok1 := bodyOf(Term{"v!ms", vs})
+	bo, ok2 := bodyOf(Term{"(select a!ms k!ms)", vs})
+	if !ok1 || !ok2 || strings.Contains(bv.S, "$g") || strings.Contains(bo.S, "$g") {
+		return // reads the heap: state dependent, no lemma
+	}
+	ds, as := ArraySort(ks, SBool), ArraySort(ks, vs)
+	vc.q.Raw(fmt.Sprintf("(assert (forall ((a!ms %s)) (! (= (%s ((as const %s) false) a!ms) 0) :pattern ((%s ((as const %s) false) a!ms)))))", as, fn, ds, fn, ds))
+	vc.q.Raw(fmt.Sprintf("(assert (forall ((d!ms %s) (a!ms %s) (k!ms %s) (v!ms %s)) (! (= (%s (store d!ms k!ms true) (store a!ms k!ms v!ms)) (+ (- (%s d!ms a!ms) (ite (select d!ms k!ms) %s 0)) %s)) :pattern ((%s (store d!ms k!ms true) (store a!ms k!ms v!ms))))))",
+		ds, as, ks, vs, fn, fn, bo.S, bv.S, fn))
+	vc.assumed["definition of the finite sum of "+fname+" over a map: 0 for the empty map, an update replaces the key's old contribution"] = true
 }
 
 // loopIter finds the map iterator driving loop number `ordinal` of the frame's function.
